@@ -176,7 +176,7 @@ def truth_datas(nvars: int) -> list[Any]:
     return [V.enc(dict(zip(BOOL_VARS, bits))) for bits in itertools.product([True, False], repeat=nvars)]
 
 
-STRING_LITS = ["", "a", "x y", 'q"uote', "it's", "back\\slash", "tab\there", "\\n", "é", "a\nb", "{{", "%}", "#", " lead", "%(x)s", "\\'", "k", "title"]
+STRING_LITS = ["", "a", "x y", 'q"uote', "it's", "back\\slash", "tab\there", "\\n", "é", "a\nb", "{{", "%}", "#", " lead", "%(x)s", "\\'", "k", "title", "..", "a..b", "(1..2)", "(", ")", "a)"]
 
 
 def data_sets(rng) -> list[Any]:
